@@ -27,6 +27,11 @@ pub mod c15;
 pub mod c16;
 pub mod c16core;
 pub mod c17;
+pub mod c18;
+pub mod c19;
+pub mod c20;
+pub mod c21;
+pub mod c22;
 
 pub fn dispatch(cfg: &Cfg) -> Option<Outcome> {
     Some(match cfg.prop.as_str() {
@@ -56,6 +61,11 @@ pub fn dispatch(cfg: &Cfg) -> Option<Outcome> {
         "C15" => c15::run(cfg),
         "C16" => c16::run(cfg),
         "C17" => c17::run(cfg),
+        "C18" => c18::run(cfg),
+        "C19" => c19::run(cfg),
+        "C20" => c20::run(cfg),
+        "C21" => c21::run(cfg),
+        "C22" => c22::run(cfg),
         _ => return None,
     })
 }
